@@ -11,7 +11,7 @@ from vlib import Case
 PROP = "C03"
 PROOF_FILES = ["Properties/C03.v"]
 PCRMAX = (2 ** 33) * 300
-RULE = ("random histories of 1..60 setter calls (14 setters of packet/adaptationfield.go + SetAdaptationField) from random "
+RULE = ("random histories of 1..60 setter calls (the 13 setters of packet/adaptationfield.go + Packet.SetAdaptationField) from random "
         "well-formed starts (adaptation_field_length 1..183, with/without payload, random subsets of optional fields, serialised "
         "by the Coq Spec serialiser), data lengths aimed at room-1/room/room+1; all histories of length <= 2 (quick) / <= 3 from three starts, length 4 from the "
         "short start (22-letter alphabet) and length 4 over a 12-letter alphabet from the other two (thorough); non-trivial = distinct history in which at least one "
